@@ -48,8 +48,10 @@ var Templates = []*Template{
 		},
 	},
 	{
-		Name:    "swap-args",
-		Patch:   func(k int) string { return fmt.Sprintf("@@\nvar a, b expression\n@@\n-vfOld%d(a, b)\n+vfNew%d(b, a)\n", k, k) },
+		Name: "swap-args",
+		Patch: func(k int) string {
+			return fmt.Sprintf("@@\nvar a, b expression\n@@\n-vfOld%d(a, b)\n+vfNew%d(b, a)\n", k, k)
+		},
 		Trigger: func(k int) string { return fmt.Sprintf("vfOld%d", k) },
 		Stmt: func(r *world.PRNG, k int) string {
 			return fmt.Sprintf("vfOld%d(%s, %s)", k, GenExpr(r, 1), GenExpr(r, 1))
@@ -158,14 +160,18 @@ type Misfit struct {
 
 var Misfits = []*Misfit{
 	{
-		Name:  "complit-in-if",
-		Patch: func(k int) string { return fmt.Sprintf("@@\nvar x expression\n@@\n-vfChk%d(x)\n+if x == nil {\n+\treturn\n+}\n", k) },
-		Stmt:  func(k int) string { return fmt.Sprintf("vfChk%d(Node{})", k) },
+		Name: "complit-in-if",
+		Patch: func(k int) string {
+			return fmt.Sprintf("@@\nvar x expression\n@@\n-vfChk%d(x)\n+if x == nil {\n+\treturn\n+}\n", k)
+		},
+		Stmt: func(k int) string { return fmt.Sprintf("vfChk%d(Node{})", k) },
 	},
 	{
-		Name:  "complit-in-range",
-		Patch: func(k int) string { return fmt.Sprintf("@@\nvar x expression\n@@\n-vfChk%d(x)\n+for range x {\n+}\n", k) },
-		Stmt:  func(k int) string { return fmt.Sprintf("vfChk%d(Node{Val: 1})", k) },
+		Name: "complit-in-range",
+		Patch: func(k int) string {
+			return fmt.Sprintf("@@\nvar x expression\n@@\n-vfChk%d(x)\n+for range x {\n+}\n", k)
+		},
+		Stmt: func(k int) string { return fmt.Sprintf("vfChk%d(Node{Val: 1})", k) },
 	},
 	{
 		Name:  "complit-in-switch",
